@@ -271,7 +271,7 @@ def source_id_reader(ctx, rep):
 
 
 def r4(ctx, rep):
-    rep.rule("C13.R4", "source ids: one writer, unknown ids skipped", floor=3)
+    rep.rule("C13.R4", "source ids: one writer, unknown ids skipped, ids start at 1 and are fresh", floor=6)
     syn = ctx.syn
     writers = set()
     for f in syn.fns:
@@ -293,10 +293,60 @@ def r4(ctx, rep):
             skip = any(x.get("k") == "continue" for x in walk(n["else"]))
     rep.check(skip, "unknown-id-skipped", "an error whose source id is not in the tree must be left without location (continue), not panic", file=c["file"], line=c["l"], fn=c["path"])
     source_id_reader(ctx, rep)
-    # ids are assigned 1.. in insertion order from the map's length (unique)
-    ins = syn.fn("SourceTree::insert", crate="prqlc")
-    rep.check("self.source_ids.keys().max()" in show_stmts(ins["body"], maxdepth=10) or "max()" in show_stmts(ins["body"], maxdepth=10), "fresh-id",
-              "SourceTree::insert must allocate an id above every existing id", file=ins["file"], line=ins["l"], fn=ins["path"])
+    # id 0 is the id under which std.prql is parsed (its spans must never be attributed to a file of the tree): every key written into
+    # source_ids is >= 1, and SourceTree::insert allocates above every existing id. The key expressions are evaluated abstractly
+    # (None | Some(linear form)) per case of the map being empty or not.
+    import optlin
+    n_keys = 0
+    for w in ("SourceTree::single", "SourceTree::new", "SourceTree::insert"):
+        f = syn.fn(w, crate="prqlc")
+        keys = []
+        for n in walk(f["body"]):
+            if n.get("k") == "mcall" and n["m"] == "insert" and show(n["r"]).endswith("source_ids") and len(n["a"]) == 2:
+                keys.append(n["a"][0])
+            if n.get("k") == "struct" and last_seg(n["p"]) == "SourceTree":
+                for fname, fv in n["f"]:
+                    if fname == "source_ids":
+                        for t in walk(fv):
+                            if t.get("k") == "tuple" and len(t["e"]) == 2:
+                                keys.append(t["e"][0])
+        for kexpr in keys:
+            n_keys += 1
+            worst, why = None, None
+            for empty in (True, False):
+                inputs = {}
+                for x in walk(f["body"]):
+                    if x.get("k") == "mcall" and x["m"] == "max" and show(x["r"]).endswith("source_ids.keys()"):
+                        inputs[show(x, maxdepth=12)] = optlin.NONE if empty else optlin.some(optlin.lin("max_id"))
+                env = {}
+                # loop counters of `.enumerate()` start at 0
+                for x in walk(f["body"]):
+                    if x.get("k") == "for" and "enumerate()" in show(x["e"], maxdepth=8):
+                        ids = [y["n"] for y in walk(x["pat"]) if y.get("k") == "p_ident"]
+                        if ids:
+                            env[ids[0]] = optlin.lin("index")
+                try:
+                    I = optlin.Interp(inputs=inputs)
+                    # locals of the function body that the key is computed from
+                    for st in f["body"]["s"]:
+                        if st.get("k") == "local" and st.get("init") is not None and st["pat"].get("k") == "p_ident":
+                            try:
+                                env[st["pat"]["n"]] = I.ev(st["init"], env)
+                            except optlin.Unsupported:
+                                pass
+                    v = I.ev(kexpr, env)
+                    lb = optlin.lower_bound(v, {"index": 0, "max_id": 1})
+                    fresh = True
+                    if not empty and w.endswith("insert"):
+                        d = dict(v[1]) if v[0] == "lin" else {}
+                        fresh = d.get("max_id", 0) >= 1 and d.get("", 0) >= 1
+                    if lb < 1 or not fresh:
+                        worst, why = lb, f"{'empty' if empty else 'non-empty'} tree: key `{show(kexpr)}` can be {lb}" + ("" if fresh else " and is not above the largest existing id")
+                except optlin.Unsupported as e:
+                    worst, why = -1, f"key `{show(kexpr)}` could not be evaluated ({e})"
+            rep.check(worst is None, f"id-nonzero-fresh:{w}", f"{w} writes a source id that can be 0 or reuse an id: {why}. Id 0 is the id std.prql is parsed under: an error span into std.prql "
+                      "would be attributed to (and rendered inside) the user's first file", file=f["file"], line=kexpr.get("l"), fn=f["path"])
+    rep.check(n_keys >= 3, "id-writers", f"expected the three id-assigning expressions of single/new/insert, found {n_keys}")
 
 
 def r5(ctx, rep):
